@@ -708,6 +708,12 @@ class RoundGen:
             ref = {"src": None, "query": "no.such.node"}
             rnode = None
             self.fault_label = "select_none"
+        elif fault == "self_reference":
+            # {?} means "this node" only inside its own condition; anywhere else it selects
+            # no node, also when an earlier parse of the chain ended on a conditioned node
+            ref = {"src": None, "query": ""}
+            rnode = None
+            self.fault_label = "self_reference_outside_condition"
         elif fault == "select_several":
             # a request that selects several nodes: all nodes, or the children of a group
             cands = []
@@ -904,10 +910,31 @@ class RoundGen:
             self.goto([])
             self.emit({"k": "import", "indent": 0, "name": gname, "ref": ref})
             self.chain_valid = False
+            dind = 2
         else:
             self.goto([gname])
             self.emit({"k": "import", "indent": 2, "name": None, "ref": ref})
             self.chain_valid = False
+            dind = 4
+        # a property line right after the import belongs to the (last) imported copy only;
+        # the node it was copied from keeps its own constraints
+        if self.cfg["constraints"] and fault is None and not self.stopped and src is None \
+                and "*" not in q and q in self.g.nodes and rng.random() < 0.5:
+            orig = self.g.nodes[q]
+            copy_path = self.g.last_new
+            if orig["options"] and orig["type"] in ("int", "float", "str") and \
+                    copy_path in self.g.nodes and copy_path != q and not orig["constant"] \
+                    and orig["dims"] is None:
+                bv, kind = self.bad_value(orig)
+                if bv is not None and kind == "option":
+                    self.emit({"k": "option", "indent": dind, "value": bv,
+                               "unit": orig["unit"]})
+                    if not self.stopped and rng.random() < 0.7:
+                        # the original is now set to the value only its copy may take
+                        self.fault_label = "option_of_the_copy_only"
+                        self.emit({"k": "mod", "indent": 0, "name": q, "value": bv,
+                                   "unit": None})
+                        self.chain_valid = False
 
 
 def cond_range(node, units=None):
@@ -1019,6 +1046,11 @@ class DipStoreMachine(Machine):
         if prop == "C14":
             cfg["faults"] = [f for f in ("other_type", "other_dimension", "constant",
                                          "declared_unset") if rng.random() < 0.7]
+            if rng.random() < 0.4:
+                # constrained nodes in the assignment mix: validation must not touch the
+                # value, unit or type that the assignments produced
+                cfg["constraints"] = True
+                cfg["p_condition"], cfg["p_options"], cfg["p_format"] = 0.3, 0.5, 0.3
         if prop == "C16":
             cfg["constraints"] = True
             cfg["p_condition"] = rng.choice([0.3, 0.6])
@@ -1042,7 +1074,8 @@ class DipStoreMachine(Machine):
             cfg["callbacks"] = rng.random() < 0.4
             cfg["weights"]["fn"] = 1 if cfg["callbacks"] else 0
             cfg["faults"] = [f for f in ("select_none", "select_several", "missing_source",
-                                         "import_none", "missing_file") if rng.random() < 0.7]
+                                         "import_none", "missing_file", "self_reference")
+                             if rng.random() < 0.7]
             if cfg["callbacks"] and rng.random() < 0.7:
                 cfg["faults"].append("callback_raises")
         return cfg
@@ -1245,7 +1278,7 @@ class DipStoreMachine(Machine):
             if node["unsigned"]:
                 st["value"] = DM.map_leaves(st["value"], abs)
             gen.emit(st)
-        elif fault in ("select_none", "select_several", "missing_source"):
+        elif fault in ("select_none", "select_several", "missing_source", "self_reference"):
             gen.s_injection(fault)
         elif fault == "import_none":
             gen.s_import("select_none")
